@@ -647,6 +647,33 @@ def c_combine(ctx, case):
                      f"Collector over {G.src(e)} = {sorted(got)}, variables {sorted(allv)}")
     except REFUSAL:
         pass
+    # the stock collectors derived from Collector, with all composite kinds switched off and
+    # with calls descended into: they too fold in every child (keyword-argument values, slice
+    # parts, conditions, ...).  The dependency model is C09's independent one.
+    from .c09 import depmodel, eff
+    from pymbolic.mapper.dependency import CachedDependencyMapper, DependencyMapper
+    for flags in ((False, False, False, False, False), (False, False, False, False, None),
+                  (False, False, "descend_args", False, None)):
+        want_d = None
+        for cls in (DependencyMapper, CachedDependencyMapper):
+            ctx.case(None)
+            ctx.count("stock_collector_folds")
+            try:
+                got_d = cls(include_subscripts=flags[0], include_lookups=flags[1],
+                            include_calls=flags[2], include_cses=flags[3],
+                            composite_leaves=flags[4])(e)
+            except RecursionError:
+                raise
+            except Exception:  # noqa: BLE001   (node types the collector does not handle, unhashables)
+                ctx.count("stock_collector_refused")
+                continue
+            if want_d is None:
+                want_d = set(depmodel(e, eff(flags)))
+            if set(got_d) != want_d:
+                ctx.fail("C04.combine", case, f"stock-collector:{cls.__name__}:calls={flags[2]}",
+                         f"{cls.__name__}(calls={flags[2]}, composite_leaves={flags[4]}) over "
+                         f"{G.src(e)}: missing {[G.src(x) for x in want_d - set(got_d)]} extra "
+                         f"{[G.src(x) for x in set(got_d) - want_d]}")
 
 
 @check("C04.callback")
